@@ -513,7 +513,7 @@ func cntS(x S) func() int {
 	}
 }
 
-` + c04ReturnDecls + `func fnr(y *S) (r S) {
+` + c04ReturnDecls + c04RepeatDecls + `func fnr(y *S) (r S) {
 	r.N = 5
 	y.N = y.N + r.N
 	return r
